@@ -26,6 +26,7 @@ EXPLANATION = (
     "int(round(p*1000)). R6: legacy encodings - the version guards are normalised to thresholds and compared with the "
     "documented table; service-argument maps name existing fields consistent with the enum member. R7: exactly one send per "
     "normal path. Float-to-int rounding arithmetic for all values is not decided."
+    " Also: no parameter is rebound before its presence guard; the caller's value is written into every service argument on every path."
 )
 ASSUMPTIONS = ["api.proto equals the compiled descriptor (C13.R2)", "the has_<field> naming convention of api.proto"]
 
